@@ -17,13 +17,19 @@
 EXTENDS Naturals, Sequences, FiniteSets, TLC, Json
 
 Kinds == {"lam", "formals_default", "formals_body", "set", "list", "paren", "call", "with", "assert", "let_value", "let_body",
-          "if_then", "if_else", "binary", "select_default", "update"}
+          "if_then", "if_else", "binary", "select_default", "update",
+          "with_ml", "formals_body_ml", "lam_ml", "inherit_src", "call_tight", "list_ml", "set_ml", "let_body_ml", "paren_ml"}
 \* how a frame of each kind wraps an expression E (text templates: prefix, suffix); the harness only concatenates
 Frame == [ lam |-> <<"x: ", "">>, formals_default |-> <<"{ a ? ", " }: a">>, formals_body |-> <<"{ a }: ", "">>,
            set |-> <<"{ a = ", "; }">>, list |-> <<"[ (", ") ]">>, paren |-> <<"(", ")">>, call |-> <<"f (", ")">>,
            with |-> <<"with p; ", "">>, assert |-> <<"assert c; ", "">>, let_value |-> <<"let a = ", "; in a">>,
            let_body |-> <<"let a = 1; in ", "">>, if_then |-> <<"if c then ", " else 0">>, if_else |-> <<"if c then 0 else ", "">>,
-           binary |-> <<"1 + (", ")">>, select_default |-> <<"a.b or (", ")">>, update |-> <<"{ } // (", ")">> ]
+           binary |-> <<"1 + (", ")">>, select_default |-> <<"a.b or (", ")">>, update |-> <<"{ } // (", ")">>,
+           \* the same constructs with the child on a line of its own, a tight call `f(x)', the source of an inherit-from
+           with_ml |-> <<"with p;\n", "">>, formals_body_ml |-> <<"{ a }:\n", "">>, lam_ml |-> <<"x:\n", "">>,
+           inherit_src |-> <<"{ inherit (", ") x; }">>, call_tight |-> <<"f(", ")">>,
+           list_ml |-> <<"[\n(", ")\n]">>, set_ml |-> <<"{\na = ", ";\n}">>, let_body_ml |-> <<"let\na = 1;\nin\n", "">>,
+           paren_ml |-> <<"(\n", "\n)">> ]
 
 Poly(c1, c2) == c2 <= 8 * c1 + 64
 
